@@ -38,6 +38,11 @@ fn gen_ph(r: &mut Rng) -> Ph {
     }
 }
 fn gen_val(r: &mut Rng, max: u64) -> String {
+    if max >= 6 && r.chance(1, 3) {
+        // many short fields: ranges with a negative and a positive bound only differ from others on such items
+        let nf = 3 + r.below(7);
+        return (0..nf).map(|_| (0..r.below(3)).map(|_| *r.pick(&["a", "b", "1", "'", " ", "中", "\\", "0"])).collect::<String>()).collect::<Vec<_>>().join(*r.pick(&[",", ",", "'", "\\"]));
+    }
     (0..r.below(max + 1)).map(|_| *r.pick(&VCHARS)).collect()
 }
 
